@@ -63,6 +63,8 @@ def case(arg):
     failed_asks = [0]
     l2d_stack = [0]
     l2d_order = [0]
+    commit_equiv = [0]
+    hidden = {"lnd_rng": 0, "cycle": 0}
 
     def fail(cl, det, i, op):
         return {"kind": kn, "seed": seed, "nops": nops, "fail": (cl, f"[{kn}] op {i} {op}: {det}"), "extra": extra}
@@ -115,6 +117,13 @@ def case(arg):
                       after = obs(kn, a)
                       d = diff_obs(kn, before, after)
                       if d:
+                          if (kn.split(":")[-1] == "l2d" and set(d) <= {"pending", "lossF"} and "pending" in d
+                                  and set(before["pending"]) - set(after["pending"]) <= set(L.canon(list(r1[0])))
+                                  and set(after["pending"]) <= set(before["pending"])):
+                              # Learner2D proposed a point that was pending already (two triangles / the clipping to the
+                              # bounds lead to the same point); the clean-up of the non-committing ask then unmarks it
+                              return fail("l2d_ask_returns_pending_point", f"ask({n}, False) returned {r1[0]} of which "
+                                          f"{sorted(set(before['pending']) - set(after['pending']))} was already pending and is not any more", i, op)
                           if not (stack0 is not None and stack0 != _stacks(kn, a) and set(d) <= {"lossT", "lossF"}):
                               return fail("state_changed", f"ask({n}, False) changed {d}", i, op)
                           # Learner2D: the rewritten stack is cut to stack_size entries; never evaluated corner points
@@ -129,7 +138,37 @@ def case(arg):
                           l2d_order[0] += 1
                       if len(r1[0]) != n and kn.split(":")[-1] != "seq":
                           return fail("count", f"ask({n}, False) returned {len(r1[0])} points", i, op)
-                      if rng.random() < 0.4:
+                      if rng.random() < 0.25 and kn.split(":")[-1] not in ("integ", "l2d", "avg1d"):
+                          # second clause: committing = the same answer, then marking each returned point pending.  Twin A commits,
+                          # twin B asks without committing and marks the points itself; the twins must stay indistinguishable
+                          ra = a.ask(n, tell_pending=True)
+                          rb = b.ask(n, tell_pending=False)
+                          if L.canon(ra) != L.canon(rb):
+                              return fail("commit_differs", f"ask({n}, True) returned {ra[0]}, ask({n}, False) on the twin {rb[0]}", i, op)
+                          for p in rb[0]:
+                              b.tell_pending(p)
+                          # two pieces of hidden iteration state advance only in a committing ask (recorded findings): the
+                          # private random generator of a LearnerND that has no triangulation yet, and the position of the
+                          # 'cycle' strategy of a BalancingLearner.  Counted, then the twin is brought in line so that every
+                          # other difference stays visible
+                          for xa, xb in zip(_all_learners(a), _all_learners(b)):
+                              ra_, rb_ = getattr(xa, "_random", None), getattr(xb, "_random", None)
+                              if ra_ is not None and ra_.getstate() != rb_.getstate():
+                                  rb_.setstate(ra_.getstate())
+                                  hidden["lnd_rng"] += 1
+                          if kn.startswith("bal:") and getattr(b, "strategy", None) == "cycle":
+                              for _ in range(n % len(b.learners)):
+                                  next(b._cycle)
+                              if n % len(b.learners):
+                                  hidden["cycle"] += 1
+                          for p in ra[0]:
+                              if X.pend_key(kn, p) not in {X.pend_key(kn, q) for q in r.outstanding}:
+                                  r.outstanding.append(p)
+                          od = diff_obs(kn, obs(kn, a), obs(kn, b))
+                          if od:
+                              return fail("commit_equiv", f"ask({n}) vs ask({n}, False) + tell_pending of each point: twins differ in {od}", i, op)
+                          commit_equiv[0] += 1
+                      elif rng.random() < 0.4:
                           # committing the same request: same points and improvements on both twins
                           ra, rb = r.ask(n, True)
                           if L.canon(ra) != L.canon(r1):
@@ -170,7 +209,18 @@ def case(arg):
         if d:
             return fail("twin_state", f"twins differ in {d} (A received {extra} non-committing asks)", i, op)
     return {"kind": kn, "seed": seed, "nops": nops, "extra": extra, "failed_asks": failed_asks[0], "fail": None,
-            "l2d_stack": l2d_stack[0], "l2d_order": l2d_order[0]}
+            "l2d_stack": l2d_stack[0], "l2d_order": l2d_order[0], "commit_equiv": commit_equiv[0], "hidden": hidden}
+
+
+def _all_learners(l):
+    """the learner and every learner inside it (DataSaver.learner, BalancingLearner.learners), depth first"""
+    out = [l]
+    inner = l.__dict__.get("learner")
+    if inner is not None and hasattr(inner, "ask"):
+        out += _all_learners(inner)
+    for c in l.__dict__.get("learners") or ():
+        out += _all_learners(c)
+    return out
 
 
 def _stacks(kn, l):
@@ -211,9 +261,19 @@ def run(ctx):
             if r.get(key):
                 failures.append({"clause": key, "signature": sig, "detail": f"[{r['kind']}] {r[key]} {what}",
                                  "replay": {"kind": r["kind"], "seed": r["seed"], "nops": r["nops"]}})
+        for key, sig, what in (("lnd_rng", "C09.commit_equiv:lnd_random_phase_rng",
+                                "time(s) ask(n) and ask(n, False) + tell_pending left the private random generator of a LearnerND "
+                                "without triangulation in different states"),
+                               ("cycle", "C09.commit_equiv:balancing_cycle_position",
+                                "time(s) ask(n) advanced the rotation of the 'cycle' strategy while ask(n, False) + tell_pending did not")):
+            if (r.get("hidden") or {}).get(key):
+                failures.append({"clause": "commit_equiv", "signature": sig, "detail": f"[{r['kind']}] {r['hidden'][key]} {what}",
+                                 "replay": {"kind": r["kind"], "seed": r["seed"], "nops": r["nops"]}})
         if r["fail"]:
             cl, det = r["fail"]
             sig = f"C09.{cl}.{r['kind']}"
+            if cl == "l2d_ask_returns_pending_point":
+                sig = "C09.state_changed:l2d_ask_returns_already_pending_point"
             if r["kind"].split(":")[-1] == "l2d" and cl == "failed_ask_changed_state" and "QhullError" in det and "['pending']" in det:
                 sig = "C09.failed_ask_changed_state:l2d_qhull_error"
             if r["kind"].split(":")[-1] == "l2d" and cl in ("twin_state", "state_changed") and "['lossF']" in det:
